@@ -132,7 +132,8 @@ def run(prop, tier, seed, replay=None):
         # "... neither by decompose_for_tropical nor through a sample": samples with the stability test on, corner points included
         from . import p_sample
         rpath, rruns, rst, rn = p_sample.gen_routing(tier, wd, seed)
-        s3 = core.mt("replay-sample", rpath, os.path.join(wd, "sum3.json"), seed, {"points": 8 if tier == "quick" else 30, "boundary": 0, "stab_all": 1})
+        sopts3 = {"points": 8 if tier == "quick" else 30, "boundary": 0, "stab_all": 1}
+        s3 = core.mt("replay-sample", rpath, os.path.join(wd, "sum3.json"), seed, sopts3)
         violations += [v for v in s3["violations"] if v["property"] == "C16"]
         c["samples_with_stability_test_ok"] = s3["counters"].get("ok_samples_with_stability_test", 0)
         c["samples_unstable"] = s3["counters"].get("outcome_ErrUnstable", 0)
@@ -169,4 +170,4 @@ def run(prop, tier, seed, replay=None):
     }
     assumptions = ["accuracy constant K = 256 n^2 eps cond (two orders above the worst ratio measured on the unchanged tree)",
                    "only the `only if` direction of the stability test raises a violation"]
-    return core.finish(prop, tier, seed, "model_checking", cov, assumptions, t0, violations, {"runner": "replay-chol", "seed": seed})
+    return core.finish(prop, tier, seed, "model_checking", cov, assumptions, t0, violations, {"runner": "replay-chol", "seed": seed, "opts": {"points": 8 if tier == "quick" else 30, "boundary": 0, "stab_all": 1}})
